@@ -252,3 +252,69 @@ def _conj(test):
             out.extend(_conj(v))
         return out
     return [test]
+
+
+def r205(ctx, R):
+    """Distinctness: candidates are collected in a set, so __eq__/__hash__
+    of the request objects must agree on what 'the same candidate' is."""
+    prog = ctx.prog
+    AC = 'placement.objects.allocation_candidate'
+    for cls, fields in (('AllocationRequestResource',
+                         ['resource_provider.id', 'resource_class',
+                          'amount']),):
+        eq = prog.func('%s:%s.__eq__' % (AC, cls))
+        hs = prog.func('%s:%s.__hash__' % (AC, cls))
+        cmpn = [c for c in own_nodes(eq.node) if isinstance(c, ast.Compare)
+                and isinstance(c.ops[0], ast.Eq)]
+        eq_fields = sorted(src(c.left).replace('self.', '') for c in cmpn
+                           if src(c.left).startswith('self.') and src(
+                               c.comparators[0]) == src(c.left).replace(
+                                   'self.', 'other.'))
+        hcall = [c for c in own_nodes(hs.node) if isinstance(c, ast.Call)
+                 and src(c.func) == 'hash']
+        h_fields = []
+        if len(hcall) == 1 and isinstance(hcall[0].args[0], ast.Tuple):
+            h_fields = sorted(src(x).replace('self.', '')
+                              for x in hcall[0].args[0].elts)
+        R.ob('R20.5', '%s:eq-hash-agree' % cls,
+             eq_fields == sorted(fields) and h_fields == sorted(fields),
+             'equality and hash are both over %s' % fields,
+             'eq %s hash %s' % (eq_fields, h_fields), func=eq)
+    eq = prog.func(AC + ':AllocationRequest.__eq__')
+    hs = prog.func(AC + ':AllocationRequest.__hash__')
+    body = src(eq.node.body[-1]) if eq.node.body else ''
+    ok_eq = 'set(self.resource_requests) == set(other.resource_requests)' \
+        in body and 'self.mappings == other.mappings' in body and isinstance(
+            eq.node.body[-1], ast.Return) and isinstance(
+                eq.node.body[-1].value, ast.BoolOp) and isinstance(
+                    eq.node.body[-1].value.op, ast.And) and len(
+                        eq.node.body[-1].value.values) == 2
+    hb = ' '.join(src(s) for s in hs.node.body)
+    ok_h = 'self.resource_requests' in hb and 'hash(tuple(' in hb and \
+        'sorted(' in hb and 'mappings' not in hb
+    R.ob('R20.5', 'AllocationRequest:eq-hash-agree', ok_eq and ok_h,
+         'two requests are equal iff they hold the same resource requests '
+         'and mappings; the hash is order-independent over the resource '
+         'requests (equal objects hash equally)',
+         'eq-ok=%s hash-ok=%s' % (ok_eq, ok_h), func=eq)
+    # the merge collects into a set and returns every element
+    m = prog.func(AC + ':_merge_candidates')
+    inits = [n for n in own_nodes(m.node) if isinstance(n, ast.Assign)
+             and src(n.targets[0]) == 'areqs' and src(n.value) == 'set()']
+    rets = [r for r in own_nodes(m.node) if isinstance(r, ast.Return)
+            and isinstance(r.value, ast.Tuple) and src(
+                r.value.elts[0]) == 'list(areqs)']
+    R.ob('R20.5', '_merge_candidates:set-of-candidates',
+         len(inits) == 1 and len(rets) == 1,
+         'merged candidates are de-duplicated through a set and all of them '
+         'are returned', 'inits=%d returns=%d' % (len(inits), len(rets)),
+         func=m)
+    R.count('R20.5', 1, 1)
+
+
+_run_c20 = run
+
+
+def run(ctx, R):
+    _run_c20(ctx, R)
+    r205(ctx, R)
